@@ -3,6 +3,8 @@ package main
 import (
 	"fmt"
 	"math/rand"
+	"net/http"
+	"net/http/httptest"
 	"os"
 	"path/filepath"
 	"sort"
@@ -25,13 +27,51 @@ type impSpec struct {
 	dirImp  int     // -1 none; file index whose directory is imported (as a directory) by file 0
 	dotRoot bool    // the root file is named through a non-clean absolute path (/x/./main.yaml)
 	style   int     // naming of files and directories: 0 plain, 1 names beginning with "http", 2 names with spaces and symbols
+	// remoteFrom > 0: the files remoteFrom..n-1 are not on disk but served over HTTP (loopback) and imported by
+	// URL; a remote file can only import remote files (a relative import inside a URL has no meaning), so edges
+	// from a remote file to a local one are dropped by normalise()
+	remoteFrom int
+	baseURL    string
+	served     map[string]servedDoc
+}
+
+type servedDoc struct {
+	status int
+	ctype  string
+	body   string
+}
+
+func (s impSpec) isRemote(i int) bool { return s.remoteFrom > 0 && i >= s.remoteFrom }
+
+// remote files alternate between YAML under a .yaml path and JSON under a path without extension, recognised by
+// its Content-Type
+func (s impSpec) urlPath(i int) string {
+	if i%2 == 1 {
+		return fmt.Sprintf("/cfg/r%d", i)
+	}
+	return fmt.Sprintf("/cfg/r%d.yaml", i)
+}
+
+func (s *impSpec) normalise() {
+	if s.remoteFrom <= 0 {
+		return
+	}
+	for i := s.remoteFrom; i < s.n; i++ {
+		var keep []int
+		for _, j := range s.edges[i] {
+			if s.isRemote(j) {
+				keep = append(keep, j)
+			}
+		}
+		s.edges[i] = keep
+	}
 }
 
 var importDirStyles = [][]string{
 	importDirs,
 	{".", "httpd", "httpd/b", "http-c", "httpd", "http-c/d"},
 	{".", "a dir", "a dir/b#1", "c@x", "a dir", "c@x/D"},
-	importDirs, // style 3: plain names, every file is a symbolic link to a file kept elsewhere
+	importDirs,                       // style 3: plain names, every file is a symbolic link to a file kept elsewhere
 	{".", "a", "a/b", "c", "a", "C"}, // style 4: files and directories whose paths differ only in letter case
 }
 
@@ -71,25 +111,56 @@ func (s impSpec) line() string {
 	return fmt.Sprintf("imports n=%d edges=%s broken=%s", s.n, e, b)
 }
 
-
 func (s impSpec) materialise(root string) {
 	for i := 0; i < s.n; i++ {
 		os.MkdirAll(filepath.Join(root, s.dirOf(i)), 0755)
 	}
 	for i := 0; i < s.n; i++ {
 		if i == s.broken && s.kind == "missing" {
-			continue
+			continue // a remote file that is missing is answered with 404
 		}
 		var b strings.Builder
 		if i == s.broken && s.kind == "unparsable" {
 			b.WriteString("tasks: [unclosed\n  - {\n")
+			if s.isRemote(i) {
+				ct := ""
+				if i%2 == 1 {
+					ct = "application/json"
+				}
+				s.served[s.urlPath(i)] = servedDoc{200, ct, b.String()}
+				continue
+			}
 			os.WriteFile(s.file(root, i), []byte(b.String()), 0644)
 			continue
 		}
 		var imps []string
 		for _, j := range s.edges[i] {
+			if s.isRemote(j) {
+				imps = append(imps, s.baseURL+s.urlPath(j))
+				continue
+			}
 			rel, _ := filepath.Rel(filepath.Dir(s.file(root, i)), s.file(root, j))
 			imps = append(imps, rel)
+		}
+		if s.isRemote(i) {
+			if i%2 == 1 {
+				var q []string
+				for _, p := range imps {
+					q = append(q, fmt.Sprintf("%q", p))
+				}
+				body := fmt.Sprintf(`{"import": [%s], "tasks": {"t%d": {"command": ["echo f%d"]}}}`, strings.Join(q, ", "), i, i)
+				s.served[s.urlPath(i)] = servedDoc{200, "application/json; charset=utf-8", body}
+			} else {
+				if len(imps) > 0 {
+					b.WriteString("import:\n")
+					for _, p := range imps {
+						fmt.Fprintf(&b, "  - %q\n", p)
+					}
+				}
+				fmt.Fprintf(&b, "tasks:\n  t%d:\n    command:\n      - echo f%d\n", i, i)
+				s.served[s.urlPath(i)] = servedDoc{200, []string{"", "text/plain", "application/x-yaml"}[i/2%3], b.String()}
+			}
+			continue
 		}
 		if i == 0 && s.dirImp >= 0 {
 			rel, _ := filepath.Rel(filepath.Dir(s.file(root, 0)), filepath.Dir(s.file(root, s.dirImp)))
@@ -148,6 +219,26 @@ func (s impSpec) reachable() []int {
 func impCase(col *Collector, s impSpec, tag string) {
 	root := newScratchDir("c17")
 	defer os.RemoveAll(root)
+	if s.remoteFrom > 0 {
+		s.normalise()
+		s.served = map[string]servedDoc{}
+		srv := httptest.NewServer(http.HandlerFunc(func(w http.ResponseWriter, r *http.Request) {
+			d, ok := s.served[r.URL.Path]
+			if !ok {
+				http.NotFound(w, r)
+				return
+			}
+			if d.ctype != "" {
+				w.Header().Set("Content-Type", d.ctype)
+			} else {
+				w.Header()["Content-Type"] = nil
+			}
+			w.WriteHeader(d.status)
+			w.Write([]byte(d.body))
+		}))
+		defer srv.Close()
+		s.baseURL = srv.URL
+	}
 	s.materialise(root)
 	home := filepath.Join(root, "nohome")
 	main := s.file(root, 0)
@@ -179,6 +270,10 @@ func impCase(col *Collector, s impSpec, tag string) {
 	}()
 	cs := Case{Tags: []string{tag, fmt.Sprintf("files=%d", s.n)}, NonTrivial: true}
 	cs.Replay = fmt.Sprintf("%s dirImport=%d dotRoot=%v names=%d (file i = %q)", s.line(), s.dirImp, s.dotRoot, s.style, filepath.Join(s.dirOf(1%s.n), s.baseOf(1%s.n)))
+	if s.remoteFrom > 0 {
+		cs.Replay += fmt.Sprintf(" files %d.. served over HTTP and imported by URL (odd ones as JSON by Content-Type)", s.remoteFrom)
+		cs.Tags = append(cs.Tags, "url-imports")
+	}
 	if s.dirImp < 0 && !s.dotRoot {
 		cs.Line = s.line()
 	}
@@ -360,11 +455,19 @@ func globalSplitCase(col *Collector, mask int, nDefs int, variant int) {
 	col.Add(cs)
 }
 
+func copyEdges(e [][]int) [][]int {
+	out := make([][]int, len(e))
+	for i := range e {
+		out[i] = append([]int{}, e[i]...)
+	}
+	return out
+}
+
 func runC17(col *Collector, tier string, seed int64) {
 	loaderReuseCases(col, "C17", []string{"yaml", "json"}, []string{"unparsable", "missing"})
 	rng := rand.New(rand.NewSource(seed))
 	col.res.Rule = "real Loader.Load on generated file trees in nested directories: every import graph on <=3 files (every edge set incl. self-loops and cycles), random graphs up to 6 files, repeated imports, directory imports, " +
-		"one file missing or unparsable at every position, a non-clean root path; every split of 6 non-conflicting definitions (tasks, contexts, variables) between the global file and the project file. non-trivial = all; distinct = distinct specifications"
+		"one file missing or unparsable at every position, a non-clean root path; part of the files served over loopback HTTP and imported by URL (YAML by extension, JSON by Content-Type; 404 and unparsable bodies as the broken file); every split of 6 non-conflicting definitions (tasks, contexts, variables) between the global file and the project file. non-trivial = all; distinct = distinct specifications"
 	var specs []impSpec
 	var tags []string
 	for n := 1; n <= 3; n++ {
@@ -382,6 +485,20 @@ func runC17(col *Collector, tier string, seed int64) {
 			if n == 2 || mask%7 == 3 {
 				specs = append(specs, impSpec{n: n, edges: edges, broken: -1, dirImp: -1, style: 1 + mask%2})
 				tags = append(tags, "exh<=3+names")
+			}
+			if n >= 2 && (n == 2 || mask%3 == 1) {
+				sr := impSpec{n: n, edges: copyEdges(edges), broken: -1, dirImp: -1, remoteFrom: 1 + mask%(n-1)}
+				specs = append(specs, sr)
+				tags = append(tags, "exh<=3+url")
+				for b := sr.remoteFrom; b < n; b++ {
+					if (mask+b)%3 == 0 {
+						sb := sr
+						sb.edges = copyEdges(edges)
+						sb.broken, sb.kind = b, []string{"missing", "unparsable"}[(mask/3+b)%2]
+						specs = append(specs, sb)
+						tags = append(tags, "broken+url")
+					}
+				}
 			}
 			if n == 3 && mask%5 == 2 {
 				// files 1 and 4 / 3 and 5 of the case-differing style need five or six files: pad with unreferenced ones
@@ -430,6 +547,13 @@ func runC17(col *Collector, tier string, seed int64) {
 			s.dotRoot = true
 		}
 		s.style = []int{0, 3, 1, 2, 4}[k%5]
+		if k%6 == 5 && s.dirImp < 0 {
+			// some of the files are served over HTTP
+			s.style, s.remoteFrom = 0, 1+rng.Intn(n-1)
+			if s.broken >= 0 && rng.Intn(2) == 0 {
+				s.broken = s.remoteFrom + rng.Intn(n-s.remoteFrom)
+			}
+		}
 		specs = append(specs, s)
 		tags = append(tags, fmt.Sprintf("random+names%d", s.style))
 	}
